@@ -1,13 +1,24 @@
 /-
   C13 — Peering: lower-priority operators pause, exactly the top one is active. Property theorems only.
 
-  Model: `Kopf/Model/C13_Peering.lean`. `decideEv` is one call of `process_peering_event` on ANY status
-  content (unknown keys, missing fields, garbled values, dead records, the own record); `step` is the
-  shared peering object with any number of operators under any order of starts, keep-alives, graceful
-  exits, kills, deliveries of the status to single operators, passing time and foreign writes.
+  Model: `Kopf/Model/C13_Peering.lean`. `decideEv` is one call of `process_peering_event` on ANY status content (unknown
+  keys, missing fields, garbled values, dead records, the own record); `step` is the shared peering object with any
+  number of operators under any order of starts, keep-alives (landing late), graceful exits (also with a lost
+  withdrawal), kills, deliveries of the CURRENT status (`deliver`) or of an OLDER view (`deliverStale`, whose `clean()`
+  lands on the current status), passing time and foreign writes.
   `u` = ticks per second, lifetimes are whole seconds, `dead r now ⇔ lastseen + lifetime·u ≤ now`.
+
+  What is and is not claimed (the property as written is FALSE of the code where views are old: findings F4/F5):
+  * per call, for every status content: `paused_iff`, `turned_iff`, `dead_cleaned`, `wake_at_deadline`;
+  * for every label list: `withdrawn_stays(_from)`, `stale_verdict` (what a call on an old view does);
+  * under the guard "every processed view is current" (`Stable.current`, resp. batches of `deliver`): the `…_partial`
+    theorems; without it `stale_view_two_active_witness` (F4 in Lean, replayed on the real code: corpus/C13/F4.json);
+  * for timely runs (`Timely`: API calls ≤ B ticks, no old views): `own_record_fresh`, backed by `renewal`;
+  * progress / possibility: `resume_after_expiry`, `convergence_possible`.
+  The pause EFFECTS (streams closed, daemons stopped, nothing handled beyond queued events, nothing handled twice) have
+  no theorem here: they are checked by the simulation oracle only.
 -/
-import Kopf.Lemmas.C13_Renew
+import Kopf.Lemmas.C13_Bridge
 namespace Kopf.C13
 
 /-! ## paused ⇔ a live peer of higher or equal priority -/
@@ -43,37 +54,32 @@ theorem paused_iff {u : Int} {st : List (Identity × RawEntry)} {me : Identity} 
           have hid := mkPeer_id hmk
           exact ⟨q, (parseAll_mem hp q).mpr ⟨i, e, hm, hmk⟩, ⟨by rw [hid]; exact hne, hd, hx⟩⟩
 
-/-- The toggle is only turned when its state really changes, and to the verdict. -/
-theorem turned_spec {u : Int} {ps : List Peer} {me : Identity} {p : Int} {ac t0 : Bool} {now now2 : Int} (b : Bool)
-    (h : (decideCore u ps me p ac (some t0) now now2).turned = some b) :
-    b ≠ t0 ∧ (decideCore u ps me p ac (some t0) now now2).paused = some b := by
-  simp only [decideCore, Option.map_some] at h ⊢
-  cases t0 <;> split at h <;> simp_all
-
-/-- In the transition system: after operator `i` processed the status, it is paused iff the status
-    holds a live record of another identity with priority ≥ its own. -/
-theorem paused_iff_step {u : Int} {s s' : State} {i : Identity} (h : step u s (.deliver i) = some s') :
-    ∃ o o', s.ops i = some o ∧ s'.ops i = some o' ∧ o'.prio = o.prio ∧
-      (o'.paused = true ↔
-        ∃ j r, (j, r) ∈ s.status ∧ j ≠ i ∧ s.now < r.lastseen + r.lifetime * u ∧ r.priority ≥ o.prio) := by
-  obtain ⟨o, ho, _, _, _, _, _, hops⟩ := deliver_spec h
-  refine ⟨o, { o with paused := blockedB u s.status i o.prio s.now, seen := some (s.ver, s.now),
-                      sleeping := willTouch u s i o }, ho, by rw [hops]; simp, rfl, ?_⟩
-  simp only [blockedB_iff, dead_false_iff]
+/-- The real action and the verdict are linked both ways: `turn_to(b)` is called iff the verdict `b` differs from
+    the toggle's state — never redundantly, never omitted. -/
+theorem turned_iff {u : Int} {ps : List Peer} {me : Identity} {p : Int} {ac t0 : Bool} {now now2 : Int} (b : Bool) :
+    (decideCore u ps me p ac (some t0) now now2).turned = some b ↔
+      (b ≠ t0 ∧ (decideCore u ps me p ac (some t0) now now2).paused = some b) := by
+  simp only [decideCore, Option.map_some]
+  generalize (!(prioPeers p (livePeers u now me ps)).isEmpty || !(samePeers p (livePeers u now me ps)).isEmpty) = bl
+  cases t0 <;> cases b <;> cases bl <;> simp
 
 /-! ## exactly the top-priority running operator is active -/
 
 /-- A stable state: every running operator has a fresh record carrying its priority, every fresh
     record belongs to a running operator, running priorities are distinct, and every running operator
-    has processed the latest version of the status, no record having expired since. -/
+    has processed the latest version of the status AS ITS CURRENT VIEW (`deliver`, not `deliverStale`), no record
+    having expired since. `current` is the guard "every processed view is current". -/
 structure Stable (u : Int) (s : State) : Prop where
   good : Good u s
   current : ∀ i op, s.ops i = some op → op.alive = true →
     ∃ t, op.seen = some (s.ver, t) ∧ ∀ j r, (j, r) ∈ s.status → (r.dead u t = r.dead u s.now)
 
-/-- In every reachable stable state, a running operator is active iff its priority is the maximum
-    of the running operators — for any number of operators and any history that led there. -/
-theorem exactly_top {u : Int} {s : State} (hr : Reachable u s) (hs : Stable u s) : ExactlyTop s := by
+/- Full clause: "among running operators with distinct priorities that see each other, exactly the highest-priority one
+   ends up active" — for every delivery timing. FALSE of the code for old views (`stale_view_two_active_witness`). -/
+/-- PARTIAL (guard: `Stable`, i.e. every running operator's last processed view is the current status). In every
+    reachable stable state — whatever history led there, old views included —, a running operator is active iff its
+    priority is the maximum of the running operators, for any number of operators. -/
+theorem exactly_top_partial {u : Int} {s : State} (hr : Reachable u s) (hs : Stable u s) : ExactlyTop s := by
   apply top_of_good hs.good
   intro i op hi ha
   obtain ⟨t, hseen, hsame⟩ := hs.current i op hi ha
@@ -84,11 +90,13 @@ theorem exactly_top {u : Int} {s : State} (hr : Reachable u s) (hs : Stable u s)
   · rintro ⟨hd, hm⟩; exact ⟨by rw [← hsame j r hm]; exact hd, hm⟩
   · rintro ⟨hd, hm⟩; exact ⟨by rw [hsame j r hm]; exact hd, hm⟩
 
-/-- Hence at most one running operator is active. -/
-theorem at_most_one_active {u : Int} {s : State} (hr : Reachable u s) (hs : Stable u s)
+/-- PARTIAL (same guard). Hence at most one running operator is active. Without the guard two running operators can both
+    be active: with an old view (`stale_view_two_active_witness`), or when time passes with no keep-alive at all (excluded
+    in timely runs by `own_record_fresh`). -/
+theorem at_most_one_active_partial {u : Int} {s : State} (hr : Reachable u s) (hs : Stable u s)
     {i j : Identity} {oi oj : Op} (hi : s.ops i = some oi) (hj : s.ops j = some oj)
     (hai : oi.alive = true) (haj : oj.alive = true) (hpi : oi.paused = false) (hpj : oj.paused = false) : i = j := by
-  have ht := exactly_top hr hs
+  have ht := exactly_top_partial hr hs
   have h1 := (ht i oi hi hai).mp hpi j oj hj haj
   have h2 := (ht j oj hj haj).mp hpj i oi hi hai
   exact hs.good.distinct i j oi oj hi hj hai haj (by omega)
@@ -118,11 +126,61 @@ theorem equal_priority_both_paused {u : Int} {s s1 s2 : State} {i j : Identity} 
     rw [hst1, hnow1, blockedB_filter, blockedB_iff]
     exact ⟨i, ri, hri, hne, hfi, by omega⟩
 
-/-! ## failover -/
 
-/-- The active operator exits gracefully; once every remaining running operator has processed the
+/-! ## old views (findings F4 / F5): what goes wrong, and what still holds -/
+
+/-- F4 in Lean. A (priority 100, lifetime 2 s) and B (priority 10) run; A renews its record in time (stamped 64, fresh
+    until 192). At clock 128 B processes the view of BEFORE that renewal — a status that really existed (first conjunct):
+    there A's record (stamped 0) is dead at B's clock, so B hands "A" to `clean()`, and the unconditional delete-by-identity
+    removes A's CURRENT, fresh record; B resumes. End state: A and B both running and both active, A without a record.
+    This contradicts `exactly_top`/`at_most_one_active` without the `Stable.current` guard, and shows that `Good` is not
+    preserved by `deliverStale`. Replayed on the real code: corpus/C13/F4.json (delivery later than the keep-alive margin). -/
+theorem stale_view_two_active_witness :
+    (run 64 init [.start "A" 100 2, .start "B" 10 10, .keepalive "A" 0, .keepalive "B" 0, .deliver "A", .deliver "B"]).map (·.status)
+      = some [("A", ⟨100, 2, 0⟩), ("B", ⟨10, 10, 0⟩)] ∧
+    (run 64 init [.start "A" 100 2, .start "B" 10 10, .keepalive "A" 0, .keepalive "B" 0, .deliver "A", .deliver "B",
+                  .tick 64, .keepalive "A" 0, .tick 64]).map (fun s => (s.now, s.status, (s.ops "B").map (·.paused)))
+      = some (128, [("A", ⟨100, 2, 64⟩), ("B", ⟨10, 10, 0⟩)], some true) ∧
+    (run 64 init [.start "A" 100 2, .start "B" 10 10, .keepalive "A" 0, .keepalive "B" 0, .deliver "A", .deliver "B",
+                  .tick 64, .keepalive "A" 0, .tick 64,
+                  .deliverStale "B" [("A", ⟨100, 2, 0⟩), ("B", ⟨10, 10, 0⟩)]]).map
+        (fun s => ((s.ops "A").map (fun o => (o.alive, o.paused)), (s.ops "B").map (fun o => (o.alive, o.paused)), s.status))
+      = some (some (true, false), some (true, false), [("B", ⟨10, 10, 0⟩)]) := by decide
+
+/-- What a call on an old view does, for every view: the verdict is about the VIEW (a peer of another identity, live at
+    the operator's own clock, priority ≥ own), and the clean removes from the CURRENT status every record — whatever it
+    says now — of each other identity that has a dead record in the view. -/
+theorem stale_verdict {u : Int} {s s' : State} {i : Identity} {view : Status}
+    (h : step u s (.deliverStale i view) = some s') :
+    ∃ o o', s.ops i = some o ∧ s'.ops i = some o' ∧ o'.prio = o.prio ∧ o'.seen = none ∧
+      (o'.paused = true ↔
+        ∃ j r, (j, r) ∈ view ∧ j ≠ i ∧ s.now < r.lastseen + r.lifetime * u ∧ r.priority ≥ o.prio) ∧
+      ∀ j r, (j, r) ∈ s'.status ↔
+        ((j, r) ∈ s.status ∧ ¬ (j ≠ i ∧ ∃ r', (j, r') ∈ view ∧ r'.lastseen + r'.lifetime * u ≤ s.now)) := by
+  obtain ⟨o, ho, _, _, hst, hops⟩ := stale_spec h
+  refine ⟨o, { o with paused := blockedB u view i o.prio s.now, seen := none, sleeping := willTouchView u view i o s.now },
+    ho, by rw [hops]; simp, rfl, rfl, ?_, ?_⟩
+  · simp only [blockedB_iff, dead_false_iff]
+  · intro j r
+    rw [hst, mem_eraseAll, mem_staleCleaned]
+    simp only [dead_true_iff]
+
+/-! ## settling and failover -/
+
+/- Full clause: "… also after the active one exits or is killed" — for every delivery timing. -/
+/-- PARTIAL (guard: the batch consists of current-view deliveries only). From ANY state in which the operators see each
+    other (`Good`) — e.g. right after the top one exited, or after a killed one's record expired while the others renewed
+    theirs —, once every running operator has processed the status (in any order, any number of times), exactly the top
+    one is active, and the operators still see each other. -/
+theorem settle_partial {u : Int} {s s' : State} (hg : Good u s) (ls : List Label)
+    (hdel : ∀ l ∈ ls, ∃ i, l = Label.deliver i)
+    (hcov : ∀ i op, s.ops i = some op → op.alive = true → Label.deliver i ∈ ls)
+    (h : run u s ls = some s') : ExactlyTop s' ∧ Good u s' :=
+  settle hg ls hdel hcov h
+
+/-- PARTIAL (same guard). The active operator exits gracefully; once every remaining running operator has processed the
     status (in any order, any number of times), exactly the top one of the remaining is active. -/
-theorem failover_exit {u : Int} {s s1 s2 : State} {a : Identity} (hg : Good u s)
+theorem failover_exit_partial {u : Int} {s s1 s2 : State} {a : Identity} (hg : Good u s)
     (h1 : step u s (.exit a) = some s1) (ls : List Label)
     (hdel : ∀ l ∈ ls, ∃ i, l = Label.deliver i)
     (hcov : ∀ i op, s1.ops i = some op → op.alive = true → Label.deliver i ∈ ls)
@@ -168,22 +226,23 @@ theorem failover_exit {u : Int} {s s1 s2 : State} {a : Identity} (hg : Good u s)
       rw [hst] at this
       exact (mem_erase.mp this).2 rfl
 
-/-- The active operator is killed; its record stays until its keep-alive expires. Once that time has
-    passed (the others having kept their records fresh) and every remaining running operator has
-    processed the status, exactly the top one of the remaining is active. -/
-theorem failover_kill {u : Int} {s s1 s2 s3 : State} {a : Identity} {d : Nat} (hg : Good u s)
-    (h1 : step u s (.kill a) = some s1) (h2 : step u s1 (.tick d) = some s2)
-    (hexp : ∀ r, (a, r) ∈ s.status → r.dead u (s.now + d) = true)
-    (hfresh : ∀ i op, s.ops i = some op → op.alive = true → i ≠ a →
-      ∃ r, (i, r) ∈ s.status ∧ r.priority = op.prio ∧ r.dead u (s.now + d) = false)
-    (ls : List Label) (hdel : ∀ l ∈ ls, ∃ i, l = Label.deliver i)
+/-- PARTIAL (same guard). A graceful exit whose withdrawal PATCH is lost (`keepalive`'s `finally` logs and ignores every
+    error) is a kill as far as the peers can tell: the record stays until it expires; from the moment it has (the others
+    having renewed theirs) the operators see each other again and `settle_partial` applies. -/
+theorem failover_lost_exit_partial {u : Int} {s s1 s2 s3 : State} {a : Identity} (h1 : step u s (.exitLost a) = some s1)
+    (hstay : s1.status = s.status → Good u s2) (ls : List Label)
+    (hdel : ∀ l ∈ ls, ∃ i, l = Label.deliver i)
     (hcov : ∀ i op, s2.ops i = some op → op.alive = true → Label.deliver i ∈ ls)
-    (h3 : run u s2 ls = some s3) : ExactlyTop s3 :=
-  (settle (good_after_kill_expiry hg h1 h2 hexp hfresh) ls hdel hcov h3).1
+    (h3 : run u s2 ls = some s3) :
+    s1.status = s.status ∧ (∃ o, s1.ops a = some o ∧ o.alive = false) ∧ ExactlyTop s3 := by
+  obtain ⟨o, _, _, _, hst, hops⟩ := exitLost_spec h1
+  have hgone : ∃ o', s1.ops a = some o' ∧ o'.alive = false :=
+    ⟨{ o with alive := false, sleeping := false }, by rw [hops]; simp, rfl⟩
+  exact ⟨hst, hgone, (settle (hstay hst) ls hdel hcov h3).1⟩
 
 /-- How the waiting operators get there: a paused operator sleeps exactly until the earliest deadline
     among the peers that block it — the moment that peer counts as dead — and then touches its own
-    record, which makes everybody (itself included) process the status again. -/
+    record (which makes everybody, itself included, process the status again: `resume_after_expiry`). -/
 theorem wake_at_deadline {u : Int} {ps : List Peer} {me : Identity} {p : Int} {ac : Bool} {tg : Option Bool}
     {now now2 m : Int} (h : (decideCore u ps me p ac tg now now2).sleep = some m) :
     0 < m ∧ (decideCore u ps me p ac tg now now2).touch = true ∧
@@ -219,11 +278,55 @@ theorem wake_at_deadline {u : Int} {ps : List Peer} {me : Identity} {p : Int} {a
         have := hmin _ ((hdel (q.deadline u - now2)).mpr ⟨q, hq, hb, rfl⟩)
         omega
 
-/-- `expire a` is nothing but time passing up to the moment all of `a`'s records are dead (so
-    `failover_kill` applies with that amount of time). -/
-theorem expire_then_dead {u : Int} {s s' : State} {a : Identity} (h : step u s (.expire a) = some s') :
-    (∃ d : Nat, step u s (.tick d) = some s') ∧ ∀ r, (a, r) ∈ s.status → r.dead u s'.now = true :=
-  expire_spec h
+/-- Progress of the resume: operator `i` is paused and its call sleeps; every peer blocking it is a record of `a` (the
+    killed or lost one). When time has passed up to `a`'s last deadline, the sleeping call CAN wake (the label is enabled),
+    its self-touch lands, the event it causes is delivered to `i`, and `i` is then active. -/
+theorem resume_after_expiry {u : Int} {s s1 : State} {i a : Identity} {o : Op} (lag : Nat)
+    (ho : s.ops i = some o) (hal : o.alive = true) (hsl : o.sleeping = true)
+    (honly : ∀ j r, (j, r) ∈ s.status → j ≠ i → r.dead u s.now = false → r.priority ≥ o.prio → j = a)
+    (h1 : step u s (.expire a) = some s1) :
+    ∃ s2 s3 o3, step u s1 (.wake i lag) = some s2 ∧ step u s2 (.deliver i) = some s3 ∧
+      s3.ops i = some o3 ∧ o3.alive = true ∧ o3.paused = false := by
+  obtain ⟨⟨d, htick⟩, hdead⟩ := expire_spec h1
+  simp only [step, Option.some.injEq] at htick
+  have hops1 : s1.ops = s.ops := by rw [← htick]
+  have hst1 : s1.status = s.status := by rw [← htick]
+  have hnow1 : s1.now = s.now + d := by rw [← htick]
+  have ho1 : s1.ops i = some o := by rw [hops1]; exact ho
+  -- the sleeping call wakes
+  have hw : ∃ s2, step u s1 (.wake i lag) = some s2 := by
+    simp only [step, ho1, hsl, if_true]; exact ⟨_, rfl⟩
+  obtain ⟨s2, h2⟩ := hw
+  obtain ⟨o', ho', _, hnow2, hst2, hops2⟩ := wake_spec h2
+  rw [ho1] at ho'; injection ho' with ho'; subst ho'
+  have ho2 : s2.ops i = some { o with sleeping := false } := by rw [hops2]; simp
+  -- the event is delivered
+  have hd : ∃ s3, step u s2 (.deliver i) = some s3 := by
+    simp only [step, ho2, hal, if_true]; exact ⟨_, rfl⟩
+  obtain ⟨s3, h3⟩ := hd
+  obtain ⟨o2, ho2', _, _, _, _, _, hops3⟩ := deliver_spec h3
+  rw [ho2] at ho2'; injection ho2' with ho2'; subst ho2'
+  let o2 : Op := { o with sleeping := false }
+  let o3 : Op := { o2 with paused := blockedB u s2.status i o2.prio s2.now, seen := some (s2.ver, s2.now), sleeping := willTouch u s2 i o2 }
+  refine ⟨s2, s3, o3, h2, h3, by rw [hops3]; simp [o3, o2], hal, ?_⟩
+  show blockedB u s2.status i o.prio s2.now = false
+  cases hb : blockedB u s2.status i o.prio s2.now with
+  | false => rfl
+  | true =>
+    exfalso
+    obtain ⟨j, r, hm, hji, hd, hge⟩ := blockedB_iff.mp hb
+    rw [hst2] at hm
+    have hm' : (j, r) ∈ s.status := by rw [← hst1]; exact (mem_patch_other (Ne.symm hji)).mp hm
+    rw [hnow2, hnow1] at hd
+    have hd0 : r.dead u s.now = false := by
+      cases hc : r.dead u s.now with
+      | false => rfl
+      | true => rw [dead_mono d hc] at hd; cases hd
+    have hja := honly j r hm' hji hd0 hge
+    subst hja
+    have := hdead r hm'
+    rw [hnow1, hd] at this
+    cases this
 
 /-! ## renewal -/
 
@@ -232,9 +335,6 @@ theorem expire_then_dead {u : Int} {s s' : State} {a : Identity} (h : step u s (
 theorem keepalive_period (L j : Int) (hL : 2 ≤ L) (h5 : 5 ≤ j) (_h10 : j ≤ 10) :
     1 ≤ kaSleep L j ∧ kaSleep L j ≤ L - margin L ∧ 1 ≤ margin L :=
   ⟨kaSleep_pos L j, kaSleep_le L j hL h5, by unfold margin; omega⟩
-
-/-- For a lifetime of one second the pinger sleeps half of it (`lifetime / 2` = `u / 2` ticks). -/
-theorem keepalive_period_one (u j : Int) : kaSleepT u 1 j = u / 2 := kaSleepT_one u j
 
 /-- While an operator runs, its record never expires: with `lifetime ≥ 1`, jitter in `[5, 10]` and every `touch()`
     call taking at most `B` ticks with `2·B <` the margin (`min(5, lifetime−1)` seconds for `lifetime ≥ 2`, the other
@@ -257,29 +357,34 @@ theorem renewal_lifetime_one (u : Int) (t : Int) (r r' : Round) (hu : 0 < u)
   show t + r.lat + u / 2 + r'.a < t + 1 * u
   omega
 
-/-- `lifetime = 0` (what `touch(lifetime=0)` uses on exit) never writes a record at all. -/
-theorem lifetime_zero_withdraws (u prio : Int) (now : Int) : touchVal u prio 0 now = none :=
-  touchVal_zero u prio now
+/-- In timely runs — every `touch()` call takes at most `B` ticks, `2·B <` the margin of every started operator
+    (`renewal`'s bound: then the pinger's next record lands before `nextKA + B`, which time does not overtake), nobody
+    writes under an operator's identity, no old views — a running operator that has touched once ALWAYS has a live record
+    carrying its priority: `Good.own` is an invariant, whatever else happens in whatever order. -/
+theorem own_record_fresh {u B : Int} {s : State} (hu : 0 < u) (hB : 0 ≤ B) (ht : Timely u B s)
+    {i : Identity} {o : Op} {k : Int} (ho : s.ops i = some o) (ha : o.alive = true) (hk : o.nextKA = some k) :
+    ∃ r, (i, r) ∈ s.status ∧ r.priority = o.prio ∧ r.dead u s.now = false := by
+  obtain ⟨_, hinv⟩ := ownFresh_timely hu hB ht
+  obtain ⟨h1, _, ⟨r, hr⟩, h4⟩ := hinv i o k ho ha hk
+  obtain ⟨hp, hl, hd⟩ := h4 r hr
+  refine ⟨r, hr, hp, ?_⟩
+  rw [dead_false_iff, hl]
+  omega
 
-/-- A keep-alive of a running operator with `lifetime ≥ 1` puts a fresh record with its priority. -/
-theorem keepalive_writes {u : Int} {s s' : State} {i : Identity} {o : Op} (hu : 0 < u) (ho : s.ops i = some o)
-    (hL : 1 ≤ o.lifetime) (h : step u s (.keepalive i) = some s') :
-    (i, { priority := o.prio, lifetime := o.lifetime, lastseen := s.now }) ∈ s'.status ∧
-      ∀ r, (i, r) ∈ s'.status → r.priority = o.prio ∧ r.dead u s'.now = false := by
-  simp only [step, ho] at h
-  by_cases ha : o.alive = true
-  · simp only [ha, if_true, Option.some.injEq, touchVal_pos hu hL, Status.patch] at h
-    subst h
-    refine ⟨mem_set.mpr (Or.inl ⟨rfl, rfl⟩), ?_⟩
-    intro r hm
-    rcases mem_set.mp hm with ⟨_, rfl⟩ | ⟨hne, _⟩
-    · refine ⟨rfl, ?_⟩
-      rw [dead_false_iff]
-      have : 0 < o.lifetime * u := Int.mul_pos (by omega) hu
-      show s.now < s.now + o.lifetime * u
-      omega
-    · exact absurd rfl hne
-  · simp [ha] at h
+/-- A keep-alive of a running operator with `lifetime ≥ 1`, landing `lag` ticks after it was stamped, puts a record
+    stamped `now − lag` with its priority, and leaves no other record under its identity. -/
+theorem keepalive_writes {u : Int} {s s' : State} {i : Identity} {o : Op} {lag : Nat} (hu : 0 < u) (ho : s.ops i = some o)
+    (hL : 1 ≤ o.lifetime) (h : step u s (.keepalive i lag) = some s') :
+    (i, { priority := o.prio, lifetime := o.lifetime, lastseen := s.now - lag }) ∈ s'.status ∧
+      ∀ r, (i, r) ∈ s'.status → r = { priority := o.prio, lifetime := o.lifetime, lastseen := s.now - lag } := by
+  obtain ⟨o', ho', _, _, hst, _⟩ := keepalive_spec h
+  rw [ho] at ho'; injection ho' with ho'; subst ho'
+  rw [hst, touchVal_pos hu hL]
+  refine ⟨mem_set.mpr (Or.inl ⟨rfl, rfl⟩), ?_⟩
+  intro r hm
+  rcases mem_set.mp hm with ⟨_, rfl⟩ | ⟨hne, _⟩
+  · rfl
+  · exact absurd rfl hne
 
 /-! ## withdrawal and cleanup -/
 
@@ -325,34 +430,12 @@ theorem own_record_not_cleaned {u : Int} {st : List (Identity × RawEntry)} {me 
     {now now2 : Int} {d : Decision} (h : decideEv u st me p true tg now now2 = .ok d) : me ∉ d.cleaned :=
   fun hm => ((dead_cleaned h me).mp hm).1 rfl
 
-/-- In the transition system: after operator `i` processed the status, no dead record of anybody else is left, and
-    every live record — and `i`'s own, dead or not — is still there. -/
-theorem dead_cleaned_step {u : Int} {s s' : State} {i : Identity} (h : step u s (.deliver i) = some s') :
-    ∀ j r, (j, r) ∈ s'.status ↔ ((j, r) ∈ s.status ∧ (r.dead u s.now = false ∨ j = i)) := by
-  obtain ⟨_, _, _, _, hst, _, _, _⟩ := deliver_spec h
-  intro j r
-  rw [hst, List.mem_filter]
-  cases hd : r.dead u s.now <;> simp
-
 /-! ## the withdrawal is permanent (was finding F2, repaired by f370f06) -/
 
-/-- A graceful exit interrupts a `process_peering_event` call that sleeps towards a blocker's deadline
-    (`_wait_for_depletion` sets the stream pressure): the call returns without touching, so `wake` is not enabled any
-    more for the exited operator. -/
-theorem exit_interrupts_sleep {u : Int} {s s' : State} {i : Identity} (h : step u s (.exit i) = some s') :
-    (∃ o, s'.ops i = some o ∧ o.alive = false ∧ o.sleeping = false) ∧ step u s' (.wake i) = none := by
-  obtain ⟨o, _, _, _, _, hops⟩ := exit_spec h
-  have h1 : s'.ops i = some { o with alive := false, sleeping := false } := by rw [hops]; simp
-  refine ⟨⟨_, h1, rfl, rfl⟩, ?_⟩
-  simp only [step, h1]
-  simp
-
-/-- the schedule that used to put B's record back after B's exit is not a run of the system any more -/
-example : (run 64 init [.start "A" 100 2, .start "B" 10 10, .keepalive "A", .keepalive "B", .deliver "B", .exit "B",
-                        .tick 64, .wake "B"]).isSome = false := by decide
-
 /-- An operator that is gone, has no sleeping call and no record stays without a record, whatever else happens in any
-    order — as long as nobody starts it again or writes a record under its name. -/
+    order — old views, lost exits, late landings included — as long as nobody starts it again or writes a record under
+    its name. (A keep-alive or self-touch PATCH still in flight when the exit begins is not a schedule of the model: the
+    pinger is cancelled before it withdraws, and the exit interrupts the sleeping call: `exit_interrupts_sleep`.) -/
 theorem withdrawn_stays_from {u : Int} {i : Identity} : ∀ (ls : List Label) (s s' : State),
     (∃ o, s.ops i = some o ∧ o.alive = false ∧ o.sleeping = false) → (∀ r, (i, r) ∉ s.status) →
     (∀ l ∈ ls, (∀ p lt, l ≠ .start i p lt) ∧ (∀ r, l ≠ .foreign i (some r))) →
@@ -368,234 +451,83 @@ theorem withdrawn_stays_from {u : Int} {i : Identity} : ∀ (ls : List Label) (s
     | some s1 =>
       simp only [hs] at h
       obtain ⟨hl1, hl2⟩ := hall l List.mem_cons_self
-      refine ih s1 s' ?_ ?_ (fun l hl => hall l (List.mem_cons_of_mem _ hl)) h
-      · -- the operator stays gone and without a sleeping call
-        cases l with
-        | start j p lt =>
-          have hji : j ≠ i := fun e => hl1 p lt (by rw [e])
-          simp only [step] at hs
-          refine ⟨o, ?_, hoa, hos⟩
-          cases hj : s.ops j with
-          | none => simp [hj] at hs; subst hs; simp only [updOp_other _ _ (Ne.symm hji)]; exact ho
-          | some oj =>
-            simp only [hj] at hs
-            by_cases hja : oj.alive = true
-            · simp [hja] at hs
-            · simp [hja] at hs; subst hs; simp only [updOp_other _ _ (Ne.symm hji)]; exact ho
-        | keepalive j =>
-          simp only [step] at hs
-          cases hj : s.ops j with
-          | none => simp [hj] at hs
-          | some oj =>
-            simp only [hj] at hs
-            by_cases hja : oj.alive = true
-            · simp only [hja, if_true, Option.some.injEq] at hs; subst hs; exact ⟨o, ho, hoa, hos⟩
-            · simp [hja] at hs
-        | exit j =>
-          obtain ⟨oj, hj, hja, _, _, hops⟩ := exit_spec hs
-          have hji : j ≠ i := by intro e; subst e; rw [ho] at hj; injection hj with hj; subst hj; rw [hoa] at hja; cases hja
-          exact ⟨o, by rw [hops, updOp_other _ _ (Ne.symm hji)]; exact ho, hoa, hos⟩
-        | kill j =>
-          obtain ⟨oj, hj, hja, _, _, hops⟩ := kill_spec hs
-          have hji : j ≠ i := by intro e; subst e; rw [ho] at hj; injection hj with hj; subst hj; rw [hoa] at hja; cases hja
-          exact ⟨o, by rw [hops, updOp_other _ _ (Ne.symm hji)]; exact ho, hoa, hos⟩
-        | deliver j =>
-          obtain ⟨oj, hj, hja, _, _, _, _, hops⟩ := deliver_spec hs
-          have hji : j ≠ i := by intro e; subst e; rw [ho] at hj; injection hj with hj; subst hj; rw [hoa] at hja; cases hja
-          exact ⟨o, by rw [hops, updOp_other _ _ (Ne.symm hji)]; exact ho, hoa, hos⟩
-        | tick d => simp only [step, Option.some.injEq] at hs; subst hs; exact ⟨o, ho, hoa, hos⟩
-        | expire j => simp only [step, Option.some.injEq] at hs; subst hs; exact ⟨o, ho, hoa, hos⟩
-        | foreign j r => simp only [step, Option.some.injEq] at hs; subst hs; exact ⟨o, ho, hoa, hos⟩
-        | wake j =>
-          simp only [step] at hs
-          cases hj : s.ops j with
-          | none => simp [hj] at hs
-          | some oj =>
-            simp only [hj] at hs
-            by_cases hjs : oj.sleeping = true
-            · simp only [hjs, if_true, Option.some.injEq] at hs
-              subst hs
-              have hji : j ≠ i := by intro e; subst e; rw [ho] at hj; injection hj with hj; subst hj; rw [hos] at hjs; cases hjs
-              exact ⟨o, by simp only [updOp_other _ _ (Ne.symm hji)]; exact ho, hoa, hos⟩
-            · simp [hjs] at hs
-      · -- and its record stays away
+      -- an operator j that acts (is running / sleeping) is not i; its step leaves i's entry and i's (absent) records alone
+      have other : ∀ {j : Identity} {oj onew : Op}, s.ops j = some oj → (oj.alive = true ∨ oj.sleeping = true) →
+          s1.ops = updOp s.ops j onew → (∀ r, (i, r) ∈ s1.status → (i, r) ∈ s.status ∨ False) →
+          (∃ o, s1.ops i = some o ∧ o.alive = false ∧ o.sleeping = false) ∧ ∀ r, (i, r) ∉ s1.status := by
+        intro j oj onew hj hact hops hsub
+        have hji : i ≠ j := by
+          intro e; subst e
+          rw [ho] at hj; injection hj with hj; subst hj
+          rcases hact with h | h
+          · rw [hoa] at h; cases h
+          · rw [hos] at h; cases h
+        refine ⟨⟨o, by rw [hops, updOp_other _ _ hji]; exact ho, hoa, hos⟩, ?_⟩
         intro r hm
+        rcases hsub r hm with h | h
+        · exact hn r h
+        · exact h
+      have same : s1.ops = s.ops → (∀ r, (i, r) ∈ s1.status → (i, r) ∈ s.status) →
+          (∃ o, s1.ops i = some o ∧ o.alive = false ∧ o.sleeping = false) ∧ ∀ r, (i, r) ∉ s1.status := by
+        intro hops hsub
+        exact ⟨⟨o, by rw [hops]; exact ho, hoa, hos⟩, fun r hm => hn r (hsub r hm)⟩
+      have key : (∃ o, s1.ops i = some o ∧ o.alive = false ∧ o.sleeping = false) ∧ ∀ r, (i, r) ∉ s1.status := by
         cases l with
         | start j p lt =>
-          simp only [step] at hs
-          cases hj : s.ops j with
-          | none => simp [hj] at hs; subst hs; exact hn r hm
-          | some oj =>
-            simp only [hj] at hs
-            by_cases hja : oj.alive = true
-            · simp [hja] at hs
-            · simp [hja] at hs; subst hs; exact hn r hm
-        | keepalive j =>
-          simp only [step] at hs
-          cases hj : s.ops j with
-          | none => simp [hj] at hs
-          | some oj =>
-            simp only [hj] at hs
-            by_cases hja : oj.alive = true
-            · simp only [hja, if_true, Option.some.injEq] at hs
-              subst hs
-              have hji : j ≠ i := by intro e; subst e; rw [ho] at hj; injection hj with hj; subst hj; rw [hoa] at hja; cases hja
-              exact hn r ((mem_patch_other hji).mp hm)
-            · simp [hja] at hs
+          obtain ⟨_, hst, _, _, hops⟩ := start_spec hs
+          have hji : i ≠ j := fun e => hl1 p lt (by rw [e])
+          exact ⟨⟨o, by rw [hops, updOp_other _ _ hji]; exact ho, hoa, hos⟩, fun r hm => hn r (by rw [hst] at hm; exact hm)⟩
+        | keepalive j lag =>
+          obtain ⟨oj, hj, hja, _, hst, hops⟩ := keepalive_spec hs
+          refine other hj (Or.inl hja) hops ?_
+          intro r hm
+          by_cases hji : j = i
+          · subst hji; rw [ho] at hj; injection hj with hj; subst hj; rw [hoa] at hja; cases hja
+          · rw [hst] at hm; exact Or.inl ((mem_patch_other hji).mp hm)
         | exit j =>
-          obtain ⟨_, _, _, _, hst, _⟩ := exit_spec hs
-          rw [hst] at hm
-          exact hn r (mem_erase.mp hm).1
+          obtain ⟨oj, hj, hja, _, hst, hops⟩ := exit_spec hs
+          exact other hj (Or.inl hja) hops (fun r hm => by rw [hst] at hm; exact Or.inl (mem_erase.mp hm).1)
+        | exitLost j =>
+          obtain ⟨oj, hj, hja, _, hst, hops⟩ := exitLost_spec hs
+          exact other hj (Or.inl hja) hops (fun r hm => by rw [hst] at hm; exact Or.inl hm)
         | kill j =>
-          obtain ⟨_, _, _, _, hst, _⟩ := kill_spec hs
-          rw [hst] at hm; exact hn r hm
+          obtain ⟨oj, hj, hja, _, hst, hops⟩ := kill_spec hs
+          exact other hj (Or.inl hja) hops (fun r hm => by rw [hst] at hm; exact Or.inl hm)
         | deliver j =>
-          obtain ⟨_, _, _, _, hst, _, _, _⟩ := deliver_spec hs
-          rw [hst] at hm; exact hn r (List.mem_filter.mp hm).1
-        | tick d => simp only [step, Option.some.injEq] at hs; subst hs; exact hn r hm
-        | expire j => simp only [step, Option.some.injEq] at hs; subst hs; exact hn r hm
+          obtain ⟨oj, hj, hja, _, hst, _, _, hops⟩ := deliver_spec hs
+          exact other hj (Or.inl hja) hops (fun r hm => by rw [hst] at hm; exact Or.inl (List.mem_filter.mp hm).1)
+        | deliverStale j view =>
+          obtain ⟨oj, hj, hja, _, hst, hops⟩ := stale_spec hs
+          exact other hj (Or.inl hja) hops (fun r hm => by rw [hst] at hm; exact Or.inl (mem_eraseAll.mp hm).1)
+        | tick d =>
+          simp only [step, Option.some.injEq] at hs; subst hs
+          exact same rfl (fun r hm => hm)
+        | expire j =>
+          simp only [step, Option.some.injEq] at hs; subst hs
+          exact same rfl (fun r hm => hm)
         | foreign j v =>
-          simp only [step, Option.some.injEq] at hs
-          subst hs
+          simp only [step, Option.some.injEq] at hs; subst hs
+          refine same rfl ?_
+          intro r hm
           by_cases hji : j = i
           · subst hji
             cases v with
-            | none => exact (mem_erase.mp hm).2 rfl
-            | some r' => exact hl2 r' rfl
-          · exact hn r ((mem_patch_other hji).mp hm)
-        | wake j =>
-          simp only [step] at hs
-          cases hj : s.ops j with
-          | none => simp [hj] at hs
-          | some oj =>
-            simp only [hj] at hs
-            by_cases hjs : oj.sleeping = true
-            · simp only [hjs, if_true, Option.some.injEq] at hs
-              subst hs
-              have hji : j ≠ i := by intro e; subst e; rw [ho] at hj; injection hj with hj; subst hj; rw [hos] at hjs; cases hjs
-              exact hn r ((mem_patch_other hji).mp hm)
-            · simp [hjs] at hs
+            | none => exact absurd rfl (mem_erase.mp hm).2
+            | some r' => exact absurd rfl (hl2 r')
+          · exact (mem_patch_other hji).mp hm
+        | wake j lag =>
+          obtain ⟨oj, hj, hjs, _, hst, hops⟩ := wake_spec hs
+          refine other hj (Or.inr hjs) hops ?_
+          intro r hm
+          by_cases hji : j = i
+          · subst hji; rw [ho] at hj; injection hj with hj; subst hj; rw [hos] at hjs; cases hjs
+          · rw [hst] at hm; exact Or.inl ((mem_patch_other hji).mp hm)
+      exact ih s1 s' key.1 key.2 (fun l hl => hall l (List.mem_cons_of_mem _ hl)) h
 
-/-- `withdraw_on_exit`, made permanent: after a graceful exit the record never comes back. -/
+/-- `withdraw_on_exit`, made permanent: after a graceful exit whose withdrawal landed, the record never comes back. -/
 theorem withdrawn_stays {u : Int} {i : Identity} {s s1 s' : State} (h1 : step u s (.exit i) = some s1) (ls : List Label)
     (hall : ∀ l ∈ ls, (∀ p lt, l ≠ .start i p lt) ∧ (∀ r, l ≠ .foreign i (some r)))
     (h2 : run u s1 ls = some s') : ∀ r, (i, r) ∉ s'.status :=
   withdrawn_stays_from ls s1 s' (exit_interrupts_sleep h1).1 (withdraw_on_exit h1).1 hall h2
-
-/-! ## non-vacuity -/
-
-def exA : Rec := { priority := 100, lifetime := 10, lastseen := 0 }
-def exB : Rec := { priority := 10, lifetime := 8, lastseen := 0 }
-
-/-- two operators, both started, touched and delivered: a reachable stable state with A active, B paused. -/
-def exStable : Option State :=
-  run 64 init [.start "A" 100 10, .start "B" 10 8, .keepalive "A", .keepalive "B", .deliver "A", .deliver "B"]
-
-example : (exStable.map (fun s => (s.status, (s.ops "A").map (·.paused), (s.ops "B").map (·.paused)))) =
-    some ([("A", exA), ("B", exB)], some false, some true) := by decide
-
-private theorem exStable_reachable : ∀ s, exStable = some s → Reachable 64 s := by
-  intro s h
-  unfold exStable at h
-  -- every prefix of a successful run is a chain of steps
-  have key : ∀ (ls : List Label) (t t' : State), Reachable 64 t → run 64 t ls = some t' → Reachable 64 t' := by
-    intro ls
-    induction ls with
-    | nil => intro t t' ht h; simp only [run, Option.some.injEq] at h; subst h; exact ht
-    | cons l rest ih =>
-      intro t t' ht h
-      simp only [run] at h
-      cases hs : step 64 t l with
-      | none => simp [hs] at h
-      | some t1 => simp only [hs] at h; exact ih t1 t' (Reachable.step l ht hs) h
-  exact key _ init s Reachable.init h
-
-private theorem exStable_stable : ∀ s, exStable = some s → Stable 64 s := by
-  intro s h
-  simp [exStable, run, step, init, updOp, touchVal, Rec.dead, Rec.deadline, Status.patch, Status.set,
-    decideCore, Status.peers, Rec.toPeer, livePeers, deadPeers, prioPeers, samePeers, Peer.isDead, Peer.deadline, minList] at h
-  subst h
-  have hops : ∀ (i : Identity) (op : Op),
-      updOp (updOp (updOp (updOp (fun _ => none) "A" { prio := 100, lifetime := 10, alive := true, paused := true, seen := none })
-        "B" { prio := 10, lifetime := 8, alive := true, paused := true, seen := none })
-        "A" { prio := 100, lifetime := 10, alive := true, paused := false, seen := some (2, 0) })
-        "B" { prio := 10, lifetime := 8, alive := true, paused := true, seen := some (2, 0), sleeping := true } i = some op →
-      (i = "A" ∧ op = { prio := 100, lifetime := 10, alive := true, paused := false, seen := some (2, 0) }) ∨
-      (i = "B" ∧ op = { prio := 10, lifetime := 8, alive := true, paused := true, seen := some (2, 0), sleeping := true }) := by
-    intro i op h
-    unfold updOp at h
-    by_cases hB : i = "B"
-    · right; subst hB; simp at h; exact ⟨rfl, h.symm⟩
-    · by_cases hA : i = "A"
-      · left; subst hA; simp at h; exact ⟨rfl, h.symm⟩
-      · simp [hA, hB] at h
-  refine ⟨⟨?_, ?_, ?_⟩, ?_⟩
-  · intro i op hi ha
-    rcases hops i op hi with ⟨rfl, rfl⟩ | ⟨rfl, rfl⟩
-    · exact ⟨exA, by simp [exA], rfl, by decide⟩
-    · exact ⟨exB, by simp [exB], rfl, by decide⟩
-  · intro j r hm hd
-    simp only [List.mem_cons, Prod.mk.injEq, List.mem_nil_iff, or_false] at hm
-    rcases hm with ⟨rfl, rfl⟩ | ⟨rfl, rfl⟩
-    · exact ⟨{ prio := 100, lifetime := 10, alive := true, paused := false, seen := some (2, 0) }, by simp [updOp], rfl, rfl⟩
-    · exact ⟨{ prio := 10, lifetime := 8, alive := true, paused := true, seen := some (2, 0), sleeping := true },
-        by simp [updOp], rfl, rfl⟩
-  · intro i j oi oj hi hj _ _ hp
-    rcases hops i oi hi with ⟨rfl, rfl⟩ | ⟨rfl, rfl⟩ <;> rcases hops j oj hj with ⟨rfl, rfl⟩ | ⟨rfl, rfl⟩ <;> simp_all
-  · intro i op hi _
-    rcases hops i op hi with ⟨rfl, rfl⟩ | ⟨rfl, rfl⟩ <;> exact ⟨0, rfl, fun _ _ _ => rfl⟩
-
-/-- `exactly_top` is not vacuous: its hypotheses hold in the state reached by two starts, two keep-alives and two
-    deliveries, and there A (priority 100) is active while B (priority 10) is paused. -/
-example : ∃ s, exStable = some s ∧ Reachable 64 s ∧ Stable 64 s ∧ ExactlyTop s := by
-  cases h : exStable with
-  | none => exact absurd h (by decide)
-  | some s => exact ⟨s, rfl, exStable_reachable s h, exStable_stable s h, exactly_top (exStable_reachable s h) (exStable_stable s h)⟩
-
-
--- `paused_iff` on a status with an unknown key swallowed, a missing lifetime, a dead record and the own record
-example : decideEv 64 [("A", .record { priority := some (.num 100), lifetime := none, lastseen := .at 0, identityKey := false }),
-                      ("G", .record { priority := some (.num 500), lifetime := some (.num 1), lastseen := .at 0, identityKey := false }),
-                      ("B", .record { priority := some (.num 10), lifetime := some (.num 8), lastseen := .at 64, identityKey := false })]
-          "B" 10 true (some false) 128 129
-        = .ok { cleaned := ["G"], turned := some true, paused := some true, delays := [60 * 64 - 129],
-                sleep := some (60 * 64 - 129), touch := true } := by decide
-
--- garbled records make the call raise (and `paused_iff` is then silent)
-example : decideEv 64 [("X", .record { priority := none, lifetime := some (.str "soon"), lastseen := .absent, identityKey := false })]
-          "B" 10 true (some false) 128 128 = .error .valueError := by decide
-example : decideEv 64 [("X", .record { priority := some (.str "high"), lifetime := none, lastseen := .absent, identityKey := false })]
-          "B" 10 true (some false) 128 128 = .error .typeError := by decide
-
--- failover by kill + expiry + delivery, concretely
-example : ((run 64 init [.start "A" 100 10, .start "B" 10 8, .keepalive "A", .keepalive "B", .deliver "A", .deliver "B",
-                         .kill "A", .tick 400, .keepalive "B", .expire "A", .deliver "B"]).map
-            (fun s => (s.now, s.status.map (·.1), (s.ops "B").map (·.paused)))) = some (640, ["B"], some false) := by decide
-
--- `withdrawn_stays` applies to an operator that exits WHILE its call sleeps towards a blocker's deadline
-example : ((run 64 init [.start "A" 100 2, .start "B" 10 10, .keepalive "A", .keepalive "B", .deliver "B"]).map
-    (fun s => (s.ops "B").map (fun o => (o.alive, o.sleeping)))) = some (some (true, true)) := by decide
-example : ((run 64 init [.start "A" 100 2, .start "B" 10 10, .keepalive "A", .keepalive "B", .deliver "B", .exit "B", .tick 64]).map
-    (fun s => ((s.ops "B").map (fun o => (o.alive, o.sleeping)), s.status.map (·.1)))) = some (some (false, false), ["A"]) := by decide
-
--- renewal hypotheses are satisfiable: lifetime 2, API calls of one tick (1/64 s)
-example : Renewed 64 2 0 [⟨2, 1, 5⟩, ⟨2, 1, 10⟩, ⟨2, 1, 7⟩] :=
-  renewal 64 2 2 (by decide) (by decide) (by decide) _ 0 (by
-    intro r hr
-    simp only [List.mem_cons, List.mem_nil_iff, or_false] at hr
-    rcases hr with rfl | rfl | rfl <;> decide)
-
--- the lifetime = 1 corner, concretely: half-second periods, API calls of one tick: renewed, three rounds
-example : Renewed 64 1 0 [⟨2, 1, 5⟩, ⟨2, 1, 10⟩, ⟨2, 1, 7⟩] :=
-  renewal 64 1 2 (by decide) (by decide) (by decide) _ 0 (by
-    intro r hr
-    simp only [List.mem_cons, List.mem_nil_iff, or_false] at hr
-    rcases hr with rfl | rfl | rfl <;> decide)
-
--- the own dead record stays, a dead record of somebody else goes
-example : decideEv 64 [("B", .record { priority := some (.num 10), lifetime := some (.num 1), lastseen := .at 0, identityKey := false }),
-                      ("G", .record { priority := some (.num 500), lifetime := some (.num 1), lastseen := .at 0, identityKey := false })]
-          "B" 10 true (some true) 128 129
-        = .ok { cleaned := ["G"], turned := some false, paused := some false, delays := [], sleep := none, touch := false } := by decide
 
 end Kopf.C13
